@@ -34,6 +34,7 @@ type Case struct {
 	Steps  int    `json:"steps"`
 	Omit   bool   `json:"omit"`   // resolver.omit_template_comment
 	Mangle int    `json:"mangle"` // percentage of type / field names drawn from the name-mangling pools
+	Shadow int    `json:"shadow"` // percentage of new fields with arguments / rewritten bodies with locals that shadow a package the template reserves
 }
 
 type Obs struct {
@@ -60,6 +61,7 @@ type W struct {
 	N                 int
 	Sch               *Schema
 	KeepUnusedImports bool
+	Shadow            int
 }
 
 // generate runs one `gqlgen generate` the way a user does: in a process of its own (gqlgen keeps process-global
@@ -179,6 +181,8 @@ func worker(c Case) {
 		script = randomScript
 	}
 	manglePct = c.Mangle
+	shadowPct = c.Shadow
+	w.Shadow = c.Shadow
 	w.Sch = initialSchema(r)
 	for k := 0; k <= c.Steps; k++ {
 		o := Obs{Case: c.ID, Kind: c.Kind, Seed: c.Seed, Step: k, Layout: c.Layout, Omit: c.Omit, Dir: dir, AddOnly: true}
@@ -230,7 +234,7 @@ func randomScript(w *W, r *rng.R, k int, o *Obs) error {
 		o.Ops = []string{"initial"}
 		return nil
 	}
-	if err := w.userEdit(r, EditOpts{Prob: 20, Helpers: r.Below(3)}); err != nil {
+	if err := w.userEdit(r, EditOpts{Prob: 20, Helpers: r.Below(3), Shadow: w.Shadow}); err != nil {
 		return err
 	}
 	if r.Below(5) == 0 {
@@ -316,7 +320,13 @@ func main() {
 		if i%6 == 4 {
 			mangle = 0
 		}
-		cases = append(cases, Case{Kind: "random", Seed: r.Next(), Layout: layout, Steps: steps + r.Below(2), Omit: i%4 == 1, Mangle: mangle})
+		// every third random case (both layouts over six cases) has schema arguments, parameters and locals that shadow
+		// the packages the resolver template reserves
+		shadow := 0
+		if i%3 == 1 || i%6 == 2 {
+			shadow = 60
+		}
+		cases = append(cases, Case{Kind: "random", Seed: r.Next(), Layout: layout, Steps: steps + r.Below(2), Omit: i%4 == 1, Mangle: mangle, Shadow: shadow})
 	}
 	for i := range cases {
 		cases[i].ID = i
